@@ -7,6 +7,7 @@ import (
 	"os"
 	"os/exec"
 	"path/filepath"
+	"sort"
 	"strings"
 	"time"
 
@@ -330,6 +331,9 @@ func c04Policy(r *Rng, kind int, ntasks int, totalSteps int64) policy {
 		return policy{fmt.Sprintf("pct(d=%d)", d), func(run []int, last int, _ uint32) (int, int64) {
 			best := run[0]
 			for _, t := range run {
+				for t >= len(prio) { // a task spawned by a go statement of repository code
+					prio = append(prio, len(prio))
+				}
 				if prio[t] > prio[best] {
 					best = t
 				}
@@ -646,8 +650,13 @@ func c04Judge(cs *C04Case, alone *c04Alone, run *c04Run, sites *SiteTable) (fail
 	for _, ch := range run.changed {
 		add("shared-bindings-unchanged", ch, "bindings")
 	}
-	for t, p := range rr.Panics {
-		add("no-panic", fmt.Sprintf("task %d panicked outside a guarded call: %s", t, p), "task-panic")
+	var pts []int
+	for t := range rr.Panics {
+		pts = append(pts, t)
+	}
+	sort.Ints(pts)
+	for _, t := range pts {
+		add("no-panic", fmt.Sprintf("task %d panicked outside a guarded call: %s", t, rr.Panics[t]), "task-panic")
 	}
 	return
 }
